@@ -100,12 +100,13 @@ def drive(ctx, drv, args, tag, seed=None):
                             {"property": "C19", "args": args, "panic": se[pm.start():pm.start() + 2000]})
             return [], {}
         raise vlib.MachineryError("c19 driver failed (%s) rc=%s: %s" % (tag, rc, se[-2500:]))
-    m = re.search(r"scenarios=(\d+) runs=(\d+) events=(\d+) wakes=(\d+)", so)
+    m = re.search(r"scenarios=(\d+) runs=(\d+) events=(\d+) wakes=(\d+) expired=(\d+)", so)
     if not m:
         raise vlib.MachineryError("c19 driver printed no summary: %s" % so[-500:])
     evs = vlib.read_ndjson(out)
     os.remove(out)
-    return evs, {"scenarios": int(m.group(1)), "runs": int(m.group(2)), "events": int(m.group(3)), "wakes": int(m.group(4))}
+    return evs, {"scenarios": int(m.group(1)), "runs": int(m.group(2)), "events": int(m.group(3)), "wakes": int(m.group(4)),
+                 "expired": int(m.group(5))}
 
 
 def measure(ctx, evs):
@@ -199,7 +200,8 @@ def leg_s(ctx, quick):
         jobs.append(("Sync", "Sync_inv.cfg", {"Deviations": '{"%s"}' % dev}, inv, 2))
     jobs.append(("Sync", "Sync_act.cfg", {"Deviations": '{"DeleteRowBeforeWrite"}'}, "RowDeletedOnlyAfterDestAck", 2))
     if not quick:
-        jobs.append(("Sync", "Sync.cfg", {"Blobs": "{1, 2, 3}", "MaxCrashes": 2}, None, 10))
+        jobs.append(("Sync", "Sync.cfg", {"Blobs": "{1, 2, 3}", "MaxCrashes": 2}, None, 8))
+        jobs.append(("Sync", "Sync_safety.cfg", {"Blobs": "{1, 2, 3, 4}"}, None, 8))
     for _, cfg, ov, _, _ in jobs:
         ctx._cfg(cfg, ov)          # derive the cfg files before the threads start
 
@@ -255,14 +257,13 @@ def run(ctx, replay):
     big = ctx.tlc_gen("SyncGen", "SyncGen.cfg", tag="SCN", overrides={
         "MaxLen": 3, "MaxRestarts": 1, "MaxFaults": 2, "Pools": "{1, 5}", "Pars": "{FALSE, TRUE}"})
     rng = random.Random(ctx.seed)
-    sample = rng.sample(big, 150 if quick else 3000)
-    fams = [("core", core, "both"), ("cuts", cuts, "mem"), ("sample", sample, "both" if not quick else "mem")]
-    if quick:
-        fams.append(("sample-ix", rng.sample(big, 40), "index"))
-    else:
+    sample = rng.sample(big, 250 if quick else 1500)
+    fams = [("core", core, "both"), ("cuts", cuts, "mem"), ("sample", sample, "mem"),
+            ("sample-ix", rng.sample(big, 80 if quick else 400), "index")]
+    if not quick:
         wide = ctx.tlc_gen("SyncGen", "SyncGen.cfg", tag="SCN", overrides={
             "MaxLen": 3, "MaxRestarts": 2, "MaxFaults": 1, "CrashKinds": '{"sweep", "quiet"}'})
-        fams.append(("wide", wide, "mem"))
+        fams.append(("wide", rng.sample(wide, 1500), "mem"))
     # scripted: the index receives dependants before what they depend on (permanode before its key, claims before
     # permanode and key), every crash point, then the rest of the world after the restart
     ooo = [{"n": len(u), "pool": pl, "noperm": True, "phases": [
@@ -272,44 +273,47 @@ def run(ctx, replay):
     fams.append(("ooo-ix", ooo, "index"))
     ctx.sample({"scenario": core[len(core) // 2]})
     ctx.sample({"scenario": sample[0]})
-    with ThreadPoolExecutor(max_workers=10) as pool:
-        s_future = pool.submit(leg_s, ctx, quick)
-        # ---- drivers
-        runs = events = wakes = 0
-        traces = []
+    nr = 300 if quick else 4000
+    fams.append(("random", None, "random"))
+    runs = events = wakes = nseg = nfail = 0
+    first = None
+    with ThreadPoolExecutor(max_workers=3) as spool, ThreadPoolExecutor(max_workers=8) as vpool:
+        s_future = spool.submit(leg_s, ctx, quick)
+        pending = []
         for name, scns, cfgs in fams:
-            sf = ctx.path("scn_%s.jsonl" % name)
-            vlib.write_jsonl(sf, scns)
-            evs, st = drive(ctx, drv, ["-scn", sf, "-cfgs", cfgs, "-par", "10"], name)
-            traces.append((name, evs))
+            if cfgs == "random":
+                # ---- T: seeded random scenarios through the same validator
+                evs, st = drive(ctx, drv, ["-random", str(nr), "-par", "10"], name)
+            else:
+                sf = ctx.path("scn_%s.jsonl" % name)
+                vlib.write_jsonl(sf, scns)
+                evs, st = drive(ctx, drv, ["-scn", sf, "-cfgs", cfgs, "-par", "10"], name)
             runs += st.get("runs", 0)
             events += len(evs)
             wakes += st.get("wakes", 0)
-            ctx.count("G", **{"scenarios:" + name: len(scns), "runs:" + name: st.get("runs", 0)})
-            ctx.log("G %s: %d scenarios -> %d runs, %d lines, %d wake-ups" % (name, len(scns), st.get("runs", 0), len(evs), st.get("wakes", 0)))
-        # ---- T: seeded random scenarios through the same validator
-        nr = 300 if quick else 4000
-        evs, st = drive(ctx, drv, ["-random", str(nr), "-par", "10"], "random")
-        traces.append(("random", evs))
-        runs += st.get("runs", 0)
-        events += len(evs)
-        ctx.log("T random: %d scenarios -> %d runs, %d lines" % (nr, st.get("runs", 0), len(evs)))
-        # ---- validation (TLC is the oracle)
-        vpool = ThreadPoolExecutor(max_workers=8)
-        nseg = nfail = 0
-        for name, evs in traces:
+            ctx.count("G" if scns is not None else "T", **{"scenarios:" + name: len(scns) if scns is not None else nr,
+                                                          "runs:" + name: st.get("runs", 0), "expired_waits:" + name: st.get("expired", 0)})
+            ctx.log("%s %s: %d scenarios -> %d runs, %d lines, %d wake-ups, %d bounded waits expired" % (
+                "T" if scns is None else "G", name, len(scns) if scns is not None else nr, st.get("runs", 0), len(evs),
+                st.get("wakes", 0), st.get("expired", 0)))
             if not evs:
                 continue
-            n, nf = validate(ctx, evs, "T" if name == "random" else "G", pool=vpool)
+            if first is None:
+                first = evs
+            # ---- validation (TLC is the oracle); the next family is driven while this one is validated
+            pending.append(spool.submit(validate, ctx, evs, "T" if scns is None else "G", vpool))
+            measure(ctx, evs)
+        for f in pending:
+            n, nf = f.result()
             nseg += n
             nfail += nf
-            measure(ctx, evs)
-        negative_samples(ctx, traces[0][1])
-        vpool.shutdown()
+        if first:
+            negative_samples(ctx, first)
         s_future.result()
-    some = segments(traces[0][1])
-    mid = some[len(some) // 2]
-    ctx.sample({"recorded_run": [{k: v for k, v in e.items() if k not in ("seq", "sg", "scn")} for e in mid[:40]]})
+    some = segments(first or [])
+    if some:
+        mid = some[len(some) // 2]
+        ctx.sample({"recorded_run": [{k: v for k, v in e.items() if k not in ("seq", "sg", "scn")} for e in mid[:40]]})
     ctx.cov["traces_validated_against_impl"] = nseg
     ctx.cov["evaluations"] = events
     ctx.cov["exhaustive"] = True
